@@ -637,9 +637,11 @@ def build_gotest(pkg, outname):
 
 
 C17_SPEC = dict(
-    floors={"notifies": 100000, "redeliveries_suppressed": 10000, "invalid_suppressed": 10000, "fallbacks": 1000, "rejects": 10000},
-    rule="EXHAUSTIVE enumeration of all event sequences of length L (quick 5, thorough 7) over a 15-event alphabet (node/group add v1, add v2, re-deliver, invalid, rejected-by-callback, delete, recreated-UID, generation-0 file object) on a fresh Agent each, driving updateNodeConfig/updateGroupConfig exactly as Agent.Start's select loop does; trace invariants + doc-derived reference state machine after every event; plus fatal-callback sequences and the topology-aware config type at depth min(L,4); distinct = distinct (reference state, last delivered, event) transitions",
-    assumptions=["the watch plumbing (reconnects, node-label driven group switches) is not driven: events are fed to the two update functions directly, in one goroutine, as the select loop does"],
+    floors={"notifies": 100000, "redeliveries_suppressed": 10000, "invalid_suppressed": 10000, "fallbacks": 1000, "rejects": 10000,
+            "watch:reopens_observed": 100, "watch:reopens_after_repeated_refusal": 40, "watch:events_delivered": 500},
+    rule="EXHAUSTIVE enumeration of all event sequences of length L (quick 5, thorough 7) over a 15-event alphabet (node/group add v1, add v2, re-deliver, invalid, rejected-by-callback, delete, recreated-UID, generation-0 file object) on a fresh Agent each, driving updateNodeConfig/updateGroupConfig exactly as Agent.Start's select loop does; trace invariants + doc-derived reference state machine after every event; plus fatal-callback sequences and the topology-aware config type at depth min(L,4); event-delivery layer: ObjectWatch reopen/delivery scenarios (see assumptions); distinct = distinct (reference state, last delivered, event) transitions",
+    assumptions=["precedence engine: events are fed to the two update functions directly, in one goroutine, as the select loop does; node-label driven group switches are not driven",
+                 "event-delivery engine (watch:* counters): the real pkg/agent/watch.ObjectWatch against a scripted fake API server, all sequences of 2 (thorough 3) phases over {inner watch expires, Error event} x {0..3 refused re-creations}; bounded progress: the next creation attempt must come within 4 x reopenDelay (20 s wall-clock) of the previous refusal, then events must flow again exactly once and in order"],
 )
 
 
@@ -656,6 +658,12 @@ def check_c17(prop, tier, seed):
         env = {"VERIF_SEED": str(seed), "VERIF_DEPTH": str(depth), "VERIF_SHARD": str(sh), "VERIF_SHARDS": str(shards),
                "VERIF_OUT": out, "VERIF_WORK": work, "GOMAXPROCS": "2"}
         jobs.append(dict(cmd=[tb, "-test.run", "^TestVerifAgent$"], env=env, work=work, out=out, name="agent/%d" % sh, cwd=work, timeout=3600))
+    # event-delivery layer: the real ObjectWatch against a scripted fake API server (expiry / error x refused re-creations)
+    wb = build_gotest("./pkg/agent/watch/", "watch.test")
+    work = os.path.join(rundir, "watch")
+    out = os.path.join(work, "out.json")
+    env = {"VERIF_SEED": str(seed), "VERIF_DEPTH": "2" if tier == "quick" else "3", "VERIF_OUT": out, "VERIF_WORK": work, "VERIF_TIER": tier}
+    jobs.insert(0, dict(cmd=[wb, "-test.run", "^TestVerifWatch$", "-test.timeout", "30m"], env=env, work=work, out=out, name="watch", cwd=work, timeout=2400, stat_prefix="watch:"))
     jobs = run_jobs(jobs)
     collect_out(res, jobs, prop)
     res.extra["exhaustive"] = True
@@ -667,6 +675,14 @@ def check_c17(prop, tier, seed):
 
 
 def replay_c17(prop, path):
+    try:
+        is_watch = (json.load(open(path)).get("case") or {}).get("engine") == "watch"
+    except Exception:
+        is_watch = False
+    if is_watch:
+        wb = build_gotest("./pkg/agent/watch/", "watch.test")
+        p = subprocess.run([wb, "-test.run", "^TestVerifWatch$"], env=dict(os.environ, VERIF_REPLAY=os.path.abspath(path)), stderr=subprocess.DEVNULL)
+        return p.returncode
     tb = build_gotest("./pkg/agent/", "agent.test")
     p = subprocess.run([tb, "-test.run", "^TestVerifAgent$"], env=dict(os.environ, VERIF_REPLAY=path), stderr=subprocess.DEVNULL)
     return p.returncode
